@@ -399,7 +399,12 @@ def resolve_name(obj, func, args, unknown=False):
 
 def forward_signatures(func, calls, args, kwargs, sig):
     if args or kwargs:
-        bap = sig.bind_partial(*args, **kwargs)
+        try:
+            bap = sig.bind_partial(*args, **kwargs)
+        except TypeError:
+            # the known arguments do not fit the function's own parameters,
+            # e.g. the instance of a bound `def m(**kwargs)`
+            raise UnknownForwards
     else:
         bap = EmptyBoundArguments()
     def rn(obj, unknown=True):
